@@ -279,7 +279,7 @@ PROPS = {
         "design_ref": "DESIGN.md §7 C18", "assumptions": ["DashMap operations are linearizable"],
     },
     "C15": {
-        "lean_modules": ["Cachelito.Props.C15", "Cachelito.Props.C15b", "Cachelito.Props.C15c", "Cachelito.Props.C15r", "Cachelito.Props.T04", "Cachelito.Props.T09", "Cachelito.Props.T10", "Cachelito.Props.T22"],
+        "lean_modules": ["Cachelito.Props.C15", "Cachelito.Props.C15b", "Cachelito.Props.C15c", "Cachelito.Props.C15r", "Cachelito.Props.T04", "Cachelito.Props.T09", "Cachelito.Props.T10", "Cachelito.Props.T22", "Cachelito.Props.S01"],
         "streams": [core_stream(nontrivial=["hit", "expiry"]), macro_stream(nontrivial=["stats-get", "stats-reset", "hit"]),
                     sched_stream(nontrivial=["quiescent-stats-checked"], quick=(6, 8, 50)), hammer_stream(), counters_stream(), stats_stream()],
         "monitors": ["C15"],
